@@ -629,6 +629,9 @@ def gen(tier, rng):
                             if tier == 'quick' and cs is None and (cnt % 3):
                                 cnt += 1
                                 continue
+                            if tier == 'quick' and len(L) + len(R) >= 5 and (cnt % 2):
+                                cnt += 1          # quick tier: the largest pairs alternate over the chunk sizes
+                                continue
                             yield _mk(how, [True, lu or None if cnt % 2 else lu, True, ru], L, R, cnt, cs,
                                       same_key_name=(cnt % 7 != 3))
                             cnt += 1
@@ -641,6 +644,9 @@ def gen(tier, rng):
                 if tier == 'quick' and (cnt % 2):
                     hs = hs[1:]
                 for h in hs:
+                    if tier == 'quick' and len(L) + len(R) >= 5 and (cnt % 2):
+                        cnt += 1
+                        continue
                     yield _mk(how, _truth(h, L, R), L, R, cnt, None, same_key_name=(cnt % 7 != 3))
                     cnt += 1
     # C. compound keys (pandas path only, with and without ordered hints)
@@ -718,7 +724,10 @@ def shrink(case):
 TECHNIQUE = ('Coq proof about a faithful model of merge/_ordered_merge/_unordered_merge composed with the proved models of the '
              'streamed join generators (C03) and map streams (C04) + exhaustive small-scope correspondence on real HDF5 frames')
 LEVEL_TEXT = ('Theorems in coq/Props/C02.v: the streamed path of the repaired merge equals the relational join (rows, key order, '
-              'column lengths, names) for all sizes and chunk sizes, given the C03 end-to-end statement of the selected '
-              'generator (instantiated for the both-unique variants) and the C04 theorems; the pandas path is correspondence '
-              'against the specification (pandas trusted).')
+              'column lengths, names) for all sizes and chunk sizes, for every how in {left,right,inner} x every truthful '
+              'unique-hint pair with no hypothesis left about C03 or C04 (ordered_merge_total_all / ordered_merge_correct_all / '
+              'ordered_merge_is_relational_join instantiate C03 streamed_total for all eight generators; the copied side of the '
+              'right/left-unique variants is proved equal to the gather through all rows; equal column lengths and '
+              'non-decreasing key order are separate corollaries); the pandas path is correspondence against the '
+              'specification (pandas trusted).')
 LEVEL_NOTE = 'Model tied to /repo by the differential run only; see evidence for theorem list and which are full / partial / refuted.'
